@@ -283,7 +283,9 @@ FullOps ==
         [a |-> "RxnAddMetabolites", s |-> 1, r |-> "r1", d |-> D1("m1", -2), combine |-> FALSE, form |-> 2],
         [a |-> "Repair", s |-> 1],
         [a |-> "Enter", s |-> 1], [a |-> "Exit", s |-> 1]}
-FullPrefix == IF FullSet = "copy" THEN SeedOps(2, "glpk") \o <<[a |-> "Copy", s |-> 1, t |-> 2, kind |-> "copy"]>> ELSE
+\* (the copy is made INSIDE an open context of the original: leaving it must not touch the copy)
+FullPrefix == IF FullSet = "copy" THEN SeedOps(2, "glpk") \o <<[a |-> "Enter", s |-> 1],
+                                                              [a |-> "Copy", s |-> 1, t |-> 2, kind |-> "copy"]>> ELSE
               IF FullSet = "io" THEN SeedOps(1, "glpk") \o <<[a |-> "RoundTrip", s |-> 1, fmt |-> "json"]>>
               ELSE SeedOps(1, "glpk") \o <<[a |-> "Enter", s |-> 1]>>
 
